@@ -20,6 +20,9 @@ def handle (j : Json) : Json :=
     match lookup Generated.registry op with
     | .ok d => Json.mkObj [("model", Json.mkObj [("status", "ok"), ("str", d.str)])]
     | .error e => Json.mkObj [("model", errJson e)]
+  | "validate" =>
+    let a := runValidate j
+    Json.mkObj [("model", a.model.json)]
   | "bcast" =>
     match (getArr j "inputs").toList.mapM parseTensor with
     | some [some A, some B] =>
